@@ -670,8 +670,8 @@ F("compute_response_v2", props=["C15", "C07"], body_sub=CONCAT_VECS,
   hints=[(r"let nt_proof_str = ", 1, "proof { assert(temp@ =~= %s); }" % TEMP, "before"),
          (r"let nt_proof_str = ", 1, "proof { assert(nt_proof_str@ == hmac_md5_spec(response_key_nt@, server_challenge@ + temp@)); }"),
          (r"let session_base_key = ", 1, "proof { lemma_nt_response_verifies(response_key_nt@, server_challenge@, %s); if client_challenge@.len() == 8 { lemma_lm_response_verifies(response_key_lm@, server_challenge@, client_challenge@); } }" % TEMP)])
-F("kx_key_v2", props=["C15"], ensures=[("C15", "key-exchange-key", "r@ == session_base_key@")])
-F("rc4k", props=["C15", "C07"], requires=["1 <= key@.len() <= 256"], ensures=[("C15", "rc4k", "r@ =~= rc4::rc4_xor(rc4::ksa(key@), plaintext@)")])
+F("kx_key_v2", props=["C15"], body_sub=CONCAT_SLICES, ensures=[("C15", "key-exchange-key", "r@ == session_base_key@")])
+F("rc4k", props=["C15", "C07"], body_sub=CONCAT_SLICES, requires=["1 <= key@.len() <= 256"], ensures=[("C15", "rc4k", "r@ =~= rc4::rc4_xor(rc4::ksa(key@), plaintext@)")])
 F("mic", props=["C15", "C07"], body_sub=CONCAT_VECS, pre="proof { reveal_with_fuel(flat, 5); }",
   ensures=[("C15", "mic", "r@ == hmac_md5_spec(exported_session_key@, negotiate_message@ + challenge_message@ + authenticate_message@)")])
 F("sign_key", props=["C16"], body_sub=CONCAT_SLICES, pre="proof { reveal_with_fuel(flat, 4); }",
